@@ -1544,8 +1544,6 @@ class RunMonitor:
                     if f[i + 1] > f[i]:
                         self.v("C04/incumbent-value-increased", i=i, before=f[i], after=f[i + 1])
                         break
-            moves = self._count_moves()
-            rec["moves"] = moves
         # ---------------- C05
         if "C05" in self.want and P.mode != "det":
             self._judge_c05(rec, obs_at_x, xres, uhl)
@@ -1555,9 +1553,6 @@ class RunMonitor:
         # ---------------- C19
         if "C19" in self.want:
             self._judge_c19(rec, xres, uhl)
-
-    def _count_moves(self):
-        return None
 
     def _judge_c05(self, rec, obs_at_x, xres, uhl):
         b, r, P = self.bads, self.result, self.P
